@@ -26,6 +26,8 @@ int SIGS[NSG];
 // ops: ev <loop> <sigmask 1..7> <oneshot>      en|dis|del <e>      raise <s> <via 0 driver, k>0 loop k-1>
 //      pair <e1> <k1> <e2> <k2>   two subscription changes (k: 0 enable, 1 disable) posted to their loops at once, i.e. concurrently
 //                                 on different threads; the driver waits for both before anything else happens
+//      craise <e> <k> <s> <via>   a subscription change of event e (which is not subscribed to signal s) is posted to its loop and, without
+//                                 waiting for it, signal s is raised from another thread: the delivery overlaps the change
 void generate(sim::Rng &r, uint64_t seed, const std::string &tier, sim::Plan &p) {
   bool thorough = tier == "thorough";
   long nl = r.range(1, MAXLOOP);
@@ -43,7 +45,8 @@ void generate(sim::Rng &r, uint64_t seed, const std::string &tier, sim::Plan &p)
     if (x < 30) { op.kind = "en"; op.a = {(long)r.below((uint64_t)nev)}; }
     else if (x < 45) { op.kind = "dis"; op.a = {(long)r.below((uint64_t)nev)}; }
     else if (x < 52) { op.kind = "del"; op.a = {(long)r.below((uint64_t)nev)}; }
-    else if (x < 64 && nl > 1) { op.kind = "pair"; op.a = {(long)r.below((uint64_t)nev), (long)r.below(2), (long)r.below((uint64_t)nev), (long)r.below(2)}; }
+    else if (x < 58) { op.kind = "craise"; op.a = {(long)r.below((uint64_t)nev), (long)r.below(2), (long)r.below(NSG), (long)r.below((uint64_t)nl + 1)}; }
+    else if (x < 68 && nl > 1) { op.kind = "pair"; op.a = {(long)r.below((uint64_t)nev), (long)r.below(2), (long)r.below((uint64_t)nev), (long)r.below(2)}; }
     else { op.kind = "raise"; op.a = {(long)r.below(NSG), (long)r.below((uint64_t)nl + 1)}; }
     p.ops.push_back(op);
   }
@@ -164,18 +167,37 @@ void execute(const sim::Plan &plan) {
       if (sim::cell_get(C_ACKS) < want) sim::violation("C04/posted-operation-never-ran", "concurrent subscription changes did not complete within 100 s of virtual time");
       W.ev[e1].enabled = en1; W.ev[e2].enabled = en2;
       check_dispositions("concurrent subscription changes on two loops");
-    } else if (op.kind == "raise") {
-      int s = (int)(((op.arg(0) % NSG) + NSG) % NSG);
+    } else if (op.kind == "raise" || op.kind == "craise") {
+      bool conc = op.kind == "craise";
+      int s = (int)(((op.arg(conc ? 2 : 0) % NSG) + NSG) % NSG);
+      int ce = -1; bool cen = false;
+      if (conc) {
+        if (W.nev == 0) continue;
+        ce = (int)(((op.arg(0) % W.nev) + W.nev) % W.nev); cen = op.arg(1) == 0;
+        if (!W.ev[ce].exists || (W.ev[ce].mask & (1 << s))) continue;     // the raised signal's own subscriptions stay stable
+      }
       bool subs = any_subscriber(s);
       if (W.base[s] == 3 && !subs) continue;      // default disposition and nobody subscribed: the signal would terminate the process
       std::vector<int> expect;
       for (int e = 0; e < W.nev; ++e) if (W.ev[e].exists && W.ev[e].enabled && (W.ev[e].mask & (1 << s))) expect.push_back(e);
       uint64_t mark = sim::hist(H_RAISE, s, (long)expect.size());
       sim::relevant();
-      int via = (int)(((op.arg(1) % (W.nl + 1)) + W.nl + 1) % (W.nl + 1));
+      int via = (int)(((op.arg(conc ? 3 : 1) % (W.nl + 1)) + W.nl + 1) % (W.nl + 1));
       int signo = SIGS[s];
+      long want_acks = -1;
+      if (conc) {
+        if (via - 1 == W.ev[ce].loop) via = 0;    // the delivery comes from a thread other than the one changing the subscription
+        want_acks = sim::cell_get(C_ACKS) + 1;
+        W.loops[W.ev[ce].loop]->runInLoop([ce, cen] { if (cen) W.ev[ce].ev->enable(); else W.ev[ce].ev->disable(); sim::cell_add(C_ACKS, 1); }, "c04.craise");
+        sim::probe("concurrent_raises");
+      }
       if (via == 0) { sim::NoSched ns; raise(signo); }
       else on_loop(via - 1, [signo] { sim::NoSched ns; raise(signo); });
+      if (conc) {
+        for (int i = 0; i < 100000 && sim::cell_get(C_ACKS) < want_acks + (via == 0 ? 0 : 1); ++i) sim::sleep_ns(1000000);
+        if (sim::cell_get(C_ACKS) < want_acks + (via == 0 ? 0 : 1)) sim::violation("C04/posted-operation-never-ran", "a subscription change posted together with a delivery did not complete within 100 s of virtual time");
+        W.ev[ce].enabled = cen;
+      }
       sim::sleep_ns(5 * 1000000);                 // quiescence: every loop has served its pipe
       sim::hist(H_QUIET, s);
       // census
